@@ -595,6 +595,19 @@ def _gen_dist(rng, tier):
         n = int(rng.integers(1, 30))
         pts = rng.integers(-8, 9, (n, 2)).astype(float)
         src = 'intgrid'
+    if rng.random() < 0.04:
+        # integral coordinates of magnitude 1e9..1e10 held in int64 (differences exact, products of two differences not)
+        pts = gen.large_int_curve(rng, nmax=40)
+        n = len(pts)
+        seg = 'chord' if (n < 5 or rng.random() < 0.5) else 'beyond'
+        if seg == 'chord':
+            a, b = pts[0].copy(), pts[-1].copy()
+        else:
+            i = int(rng.integers(1, n - 2))
+            j = int(rng.integers(i + 1, n - 1))
+            a, b = pts[i].copy(), pts[j].copy()
+        return {'kind': 'dist', 'points': np.ascontiguousarray(pts), 'a': a, 'b': b, 'seg': seg, 'src': 'large-int64',
+                'layout': 'i64', 'ab_layout': 'i64', 'left': 0, 'right': n - 1}
     n = len(pts)
     lo, hi = pts.min(axis=0), pts.max(axis=0)
     span = np.where(hi > lo, hi - lo, 1.0)
@@ -775,6 +788,10 @@ def run_case(ctx, mods, case):
             a, b = np.asarray(case['a'], dtype=float), np.asarray(case['b'], dtype=float)
         ctx.h('dist_case', f"{case['src']}/{case['seg']}")
         _call(ctx, 'linear_fit.shortest_distance_points', lf.shortest_distance_points, P, a, b)
+        if case['src'] == 'large-int64':
+            # only the closed-segment distance is driven at this magnitude: the perpendicular primitives and
+            # knee_ranking.distances form int64 products that wrap (known finding F-2 of C20)
+            return
         if not np.array_equal(a, b):
             _call(ctx, 'linear_fit.perpendicular_distance_points', lf.perpendicular_distance_points, P, a, b)
         _call(ctx, 'linear_fit.perpendicular_distance_index', lf.perpendicular_distance_index, P,
